@@ -603,6 +603,8 @@ func runC08(w *World, r *Report) {
 	r.Rule("C08.array-alias", "no append on a slice derived from arrayReader.arr (the copies of an array-backed stream share that array): appends start from a fresh slice", 1)
 	arrayAliasCheck(w, r, "C08.array-alias")
 
+	r.Rule("C08.sync-fill-bounded", "a stream filled by its creator before any reader exists (MergeStreamReaders' array part) has the capacity of the filling loop's bound", 1)
+	syncFillBounded(w, r, "C08.sync-fill-bounded")
 	r.Rule("C08.select-table", "the static select table of the merged reader: the entry for n sources receives from n distinct sources and each case returns the index and item of its own source", 4)
 	selectTableCheck(w, r, "C08.select-table")
 
@@ -1374,4 +1376,60 @@ func streamBranchConditionsClose(w *World, r *Report, rule string) int {
 var bundledHandlerExceptions = map[string]string{
 	"(*utils/callbacks.handlerTemplate).OnStartWithStreamInput": "the `default: return ctx` arm is for components the template has no handler for; handlerTemplate.Needed answers false for them, and the callback manager neither copies the stream for nor calls a handler whose Needed is false (C10.stream-copies counts only needed handlers)",
 	"(*utils/callbacks.handlerTemplate).OnEndWithStreamOutput":  "same: the default arm is unreachable behind handlerTemplate.Needed",
+}
+
+// syncFillBounded: a stream that is filled by the function that creates it — sends in a loop on the creating goroutine,
+// before any reader can exist — has the capacity of that loop's bound: otherwise the (n+1)-th send blocks for ever.
+func syncFillBounded(w *World, r *Report, rule string) {
+	ns := w.Fn("schema", "newStream")
+	send := w.Fn("schema", "stream.send")
+	n := 0
+	for _, fn := range w.RepoFuncs("schema") {
+		if fn.Parent() != nil {
+			continue // goroutine bodies and other literals are not "the creating goroutine before any reader exists"
+		}
+		loops := naturalLoops(fn)
+		for _, c := range callsTo(fn, ns) {
+			sv, ok := c.(ssa.Value)
+			if !ok {
+				continue
+			}
+			for _, sc := range callsTo(fn, send) {
+				if sc.Common().Args[0] != sv {
+					continue
+				}
+				var inner *loopInfo
+				for _, li := range loops {
+					li := li
+					if li.body[sc.Block()] && (inner == nil || len(li.body) < len(inner.body)) {
+						inner = &li
+					}
+				}
+				if inner == nil {
+					continue
+				}
+				n++
+				// loop bound: header compares an index with len(Y)
+				var bound ssa.Value
+				for _, in := range inner.header.Instrs {
+					if iff, ok := in.(*ssa.If); ok {
+						if op, _, y, ok := asCmp(iff.Cond); ok && op == token.LSS {
+							bound = y
+						}
+					}
+				}
+				capArg := c.Common().Args[0]
+				good := bound != nil && valText(capArg) == valText(bound)
+				r.Check(good, rule, fmt.Sprintf("%s: stream filled synchronously in a loop has the loop's bound as capacity", w.fname(fn)), c.Pos(), "newStream("+valText(capArg)+") filled by a loop bounded by the same expression", fmt.Sprintf("the stream is created with capacity %s but filled on the creating goroutine by a loop bounded by %s: once more items are sent than the buffer holds the send blocks for ever — a stream-mode fan-in of array-backed readers holding more chunks than the buffer, merged with a channel-backed one, hangs (Invoke is unaffected)", valText(capArg), func() string {
+					if bound == nil {
+						return "?"
+					}
+					return valText(bound)
+				}()))
+			}
+		}
+	}
+	if n == 0 {
+		r.Fail(rule, "synchronously filled streams in package schema", ns.Pos(), "no newStream result that is filled in a loop by its creator found (MergeStreamReaders' array part expected)")
+	}
 }
